@@ -77,6 +77,13 @@ where
         if !self.visit_index(&index) {
             self.process_unvisited_index(index, handler)
         } else {
+            // An already visited edge (the search origin reached again through a cycle)
+            // must still hand over to the remaining edges of the node being expanded.
+            if index.index.is_edge() {
+                self.algorithm
+                    .expand(index, self.graph, self.storage, false);
+            }
+
             Ok(true)
         }
     }
